@@ -61,3 +61,7 @@ func Try(fn func()) (crashed bool) {
 	fn()
 	return false
 }
+
+// NativeRepeat is the number of times a scenario whose outcome depends on Go's random map
+// iteration order is repeated natively (under the engine the order is fixed: once).
+func NativeRepeat(n int) int { return n }
